@@ -244,7 +244,7 @@ package graphql
 // tables: the fragment table built by Parse and slices of parsed directives never hold nil.
 //@ nonnil ast.Field.Name, ast.FragmentSpread.Name, ast.Directive.Name, ast.Argument.Name, ast.Argument.Value, ast.Named.Name, ast.Variable.Name, ast.VariableDefinition.Variable, ast.VariableDefinition.Type, ast.ObjectField.Name, ast.ObjectField.Value, ast.FragmentDefinition.Name, ast.FragmentDefinition.TypeCondition, ast.FragmentDefinition.SelectionSet, ast.OperationDefinition.SelectionSet, ast.NonNull.Type, ast.List.Type
 //@ nonnil elem *ast.Field, elem *ast.FragmentSpread, elem *ast.InlineFragment, elem *ast.Directive, elem *ast.Argument, elem *ast.VariableDefinition, elem *ast.ObjectField, elem *ast.OperationDefinition, elem *ast.FragmentDefinition, elem *ast.Variable, elem *ast.IntValue, elem *ast.FloatValue, elem *ast.StringValue, elem *ast.BooleanValue, elem *ast.EnumValue, elem *ast.ListValue, elem *ast.ObjectValue, elem *ast.Named, elem *ast.List, elem *ast.NonNull
-//@ nonnil elem *graphql.Fragment, elem *graphql.Directive, elem *graphql.Object, elem *graphql.outputNode, elem *graphql.Selection, elem *graphql.Field, elem *graphql.Scalar, elem *graphql.Enum, elem *graphql.Union, elem *graphql.List, elem *graphql.NonNull
+//@ nonnil elem *reactive.Rerunner, elem *graphql.Fragment, elem *graphql.Directive, elem *graphql.Object, elem *graphql.outputNode, elem *graphql.Selection, elem *graphql.Field, elem *graphql.Scalar, elem *graphql.Enum, elem *graphql.Union, elem *graphql.List, elem *graphql.NonNull
 //@ nonnil graphql.Fragment.SelectionSet        // every fragment the parser builds has a selection set (the grammar requires one)
 //@ trusted func parser.Parse
 //@   assigns nothing                    // the third-party parser builds a fresh AST from the source text
